@@ -173,7 +173,21 @@ func runFanout(rc *RunCtx, o fanOpts) {
 	for i := 0; i < nOps; i++ {
 		typ := types[tp.Choose(len(types), "ptype")]
 		pid := pipeIDs[tp.Choose(maxP, "pid")]
-		switch tp.Choose(6, "histop") {
+		switch tp.Choose(7, "histop") {
+		case 6: // a re-registration that must fail and leave everything as it was
+			bad := [][]string{{filters[0].id, sinks[0].id}, {formatters[0].id, "zz-unregistered", sinks[0].id}, {formatters[0].id, sinks[0].id, filters[0].id}}[tp.Choose(3, "badkind")]
+			nids := make([]el.NodeID, len(bad))
+			for j, x := range bad {
+				nids[j] = el.NodeID(x)
+			}
+			err := broker.RegisterPipeline(el.Pipeline{PipelineID: el.PipelineID(pid), EventType: el.EventType(typ), NodeIDs: nids})
+			graphKnown[typ] = true
+			desc.History = append(desc.History, fmt.Sprintf("RegisterPipeline(%s,%s,%v) [malformed] err=%v", typ, pid, bad, err != nil))
+			if err == nil {
+				rc.Failf(rc.Prop+".setup", "malformed-accepted", "malformed pipeline %v accepted", bad)
+				return
+			}
+			simrt.Probe("history.failed-reregistration")
 		case 0: // remove
 			if len(model.pipesOfType(typ)) == 0 {
 				continue
@@ -331,6 +345,38 @@ func runFanout(rc *RunCtx, o fanOpts) {
 		})
 	}
 	_ = anyDeadline
+
+	// a concurrent task re-registers registered pipelines with their own, unchanged
+	// definition: the set of registered pipelines never changes, so every Send must
+	// still traverse each of them exactly once
+	if !o.stall && tp.Choose(3, "reregistrar") == 0 {
+		var defs []el.Pipeline
+		for _, t := range types {
+			for _, p := range model.pipesOfType(t) {
+				nids := make([]el.NodeID, len(p.nodeIDs))
+				for j, x := range p.nodeIDs {
+					nids[j] = el.NodeID(x)
+				}
+				defs = append(defs, el.Pipeline{PipelineID: el.PipelineID(p.id), EventType: el.EventType(t), NodeIDs: nids})
+			}
+		}
+		k := 1 + tp.Choose(6, "nrereg")
+		if len(defs) > 0 {
+			order := make([]int, k)
+			for i := range order {
+				order[i] = tp.Choose(len(defs), "rereg")
+			}
+			sim.Spawn("reregistrar", func() {
+				for _, i := range order {
+					simrt.Yield("rereg:step")
+					if err := broker.RegisterPipeline(defs[i]); err != nil {
+						rc.Failf(rc.Prop+".setup", "rereg", "re-registering %v failed: %v", defs[i], err)
+					}
+					simrt.Probe("concurrent-reregistration")
+				}
+			})
+		}
+	}
 
 	// freeze stalled node bodies as soon as they announce themselves
 	frozen := map[int]bool{}
